@@ -62,11 +62,20 @@ static void build_signal (double *x, long N, int ch, const long *place, const in
 		x [tie_frame * ch + tie_ch] = - x [place [tie_ch] * ch + tie_ch] ;	/* same magnitude, opposite sign, later: the first must win */
 }
 
-static void peak_case (const PkFmt *pf, int sub, int ch, int wtype, long N, const long *place, const int *neg, long tie_frame, int tie_ch, const long *splits, int nsplit)
-{	SF_INFO info ; SNDFILE *sf ; double *x = malloc (N * ch * sizeof (double)) ; void *w = malloc (N * ch * 8) ; char rs [64] ; int rc ; long done = 0 ;
+/* app: 0 none; otherwise the file is closed, re-opened SFM_RDWR and APP_K more frames are appended whose carrier-channel value at appended
+** frame 1 is 1 = half, 2 = equal (the earlier occurrence must stay), 3 = 1.25 x the maximum written so far (the new one must win). */
+#define APP_K 3
+static void peak_case (const PkFmt *pf, int sub, int ch, int wtype, long N0, const long *place, const int *neg, long tie_frame, int tie_ch, const long *splits, int nsplit, int app)
+{	long N = N0 + (app ? APP_K : 0) ;
+	SF_INFO info ; SNDFILE *sf ; double *x = malloc (N * ch * sizeof (double)) ; void *w = malloc (N * ch * 8) ; char rs [64] ; int rc ; long done = 0 ;
 	double emax [8] ; long epos [8] ; double overall = 0 ; uint64_t oh = VL_H0 ;
-	snprintf (rs, sizeof (rs), "peak|%s/%s", pf->name, sub_name (sub)) ;
-	build_signal (x, N, ch, place, neg, tie_frame, tie_ch) ;
+	snprintf (rs, sizeof (rs), "%s|%s/%s", app ? "peak-append" : "peak", pf->name, sub_name (sub)) ;
+	build_signal (x, N0, ch, place, neg, tie_frame, tie_ch) ;
+	if (app)
+	{	static const double fac [4] = { 0, 0.5, 1.0, 1.25 } ;
+		for (long f = N0 ; f < N ; f++) for (int c = 0 ; c < ch ; c++) x [f * ch + c] = ((f + c) % 5 + 1) / 256.0 * ((f & 1) ? -1.0 : 1.0) ;
+		x [(N0 + 1) * ch + tie_ch] = - (0.5 + 0.0625 * (tie_ch + 1)) * fac [app] * (neg [tie_ch] ? -1.0 : 1.0) ;
+		}
 	/* reference maxima, computed on the values as they will be stored */
 	for (long i = 0 ; i < N * ch ; i++)
 	{	switch (wtype)
@@ -87,13 +96,27 @@ static void peak_case (const PkFmt *pf, int sub, int ch, int wtype, long N, cons
 	if (pf->enable_cmd) INLIB (sf_command (sf, SFC_SET_ADD_PEAK_CHUNK, NULL, SF_TRUE)) ;
 	if (wtype == T_SHORT || wtype == T_INT) INLIB (sf_command (sf, SFC_SET_SCALE_INT_FLOAT_WRITE, NULL, SF_TRUE)) ;
 	for (int s = 0 ; s <= nsplit ; s++)
-	{	long end = s < nsplit ? splits [s] : N, k = end - done ;
+	{	long end = s < nsplit ? splits [s] : N0, k ;
+		if (end > N0) end = N0 ;
+		k = end - done ;
 		if (k <= 0) continue ;
 		if (vl_write (sf, wtype, s & 1, (char *) w + done * ch * type_size [wtype], (s & 1) ? k : k * ch) != ((s & 1) ? k : k * ch)) vl_violation (rt_sig ("%s|write-failed", rs), "write failed") ;
 		done = end ;
 		}
 	INLIB (rc = sf_close (sf)) ;
 	if (rc) vl_violation (rt_sig ("%s|close-nonzero", rs), "close returned %d", rc) ;
+	if (app)
+	{	sf_count_t at ;
+		md_rewind (&dev) ; memset (&info, 0, sizeof (info)) ;
+		sf = md_open (&dev, SFM_RDWR, &info) ;
+		if (! sf) { vl_note ("rdwr re-open refused") ; free (x) ; free (w) ; vl_end (0, 0) ; return ; }
+		if (wtype == T_SHORT || wtype == T_INT) INLIB (sf_command (sf, SFC_SET_SCALE_INT_FLOAT_WRITE, NULL, SF_TRUE)) ;
+		INLIB (at = sf_seek (sf, 0, SEEK_END | SFM_WRITE)) ;
+		if (at != N0) vl_violation (rt_sig ("%s|append-seek", rs), "write seek to the end returned %lld, file has %ld frames", (long long) at, N0) ;
+		else if (vl_write (sf, wtype, 1, (char *) w + N0 * ch * type_size [wtype], APP_K) != APP_K) vl_violation (rt_sig ("%s|append-write-failed", rs), "append failed") ;
+		INLIB (rc = sf_close (sf)) ;
+		if (rc) vl_violation (rt_sig ("%s|append-close-nonzero", rs), "close returned %d", rc) ;
+		}
 	/* the chunk as stored */
 	{	float pv [8] ; uint64_t pp [8] ;
 		if (! find_peak (dev.data, dev.len, pf->major, ch, pv, pp)) vl_violation (rt_sig ("%s|no-peak-chunk", rs), "no PEAK chunk in the written file") ;
@@ -133,7 +156,7 @@ static void run_peak (void)
 				for (int wi = 0 ; wi < 4 ; wi++)
 				{	int wtype = wtypes [wi] ; long S = 8192 / (wtype == T_DOUBLE || subs [si] == SF_FORMAT_DOUBLE ? 8 : 4) / ch ;
 					long Ns [5] = { 1, 2, S - 1, S + 1, 2 * S + 3 } ;
-					int full = (pf->major == SF_FORMAT_WAV && si == 0 && ch == 2 && wi == 0) ;
+					int full = vl_opts.thorough ? 1 : ((pf->major == SF_FORMAT_WAV && si == 0 && ch == 2 && wi == 0) || (wi < 2 && ch == 2) || (pf->major == SF_FORMAT_AIFF && wi == si)) ;
 					for (int ni = 0 ; ni < 5 ; ni++)
 					{	long N = Ns [ni], pl [6] = { 0, 1, S - 1, S, S + 1, N - 1 } ;
 						for (int pi = 0 ; pi < 6 ; pi++)
@@ -148,17 +171,23 @@ static void run_peak (void)
 										for (int c = 0 ; c < ch ; c++) { place [c] = c == carrier ? pl [pi] : (pl [pi] + 3 + c) % N ; negs [c] = c == carrier ? neg : ! neg ; }
 										/* partitions: none; each single split; (full) all pairs */
 										if (vl_case ("C18 peak fmt=%s/%s ch=%d wtype=%s N=%ld place=%ld carrier=%d neg=%d tie=%d splits=-", pf->name, sub_name (subs [si]), ch, type_names [wtype], N, pl [pi], carrier, neg, tie))
-										{	vl_root_count (pf->name) ; peak_case (pf, subs [si], ch, wtype, N, place, negs, tie_frame, carrier, NULL, 0) ; }
+										{	vl_root_count (pf->name) ; peak_case (pf, subs [si], ch, wtype, N, place, negs, tie_frame, carrier, NULL, 0, 0) ; }
+										/* non-initial state: the same file re-opened for read/write and extended */
+										for (int app = 1 ; app <= 3 ; app++)
+										{	if (! full && ni != 1 && ni != 3) continue ;
+											if (vl_case ("C18 peak-append fmt=%s/%s ch=%d wtype=%s N=%ld place=%ld carrier=%d neg=%d tie=%d app=%d", pf->name, sub_name (subs [si]), ch, type_names [wtype], N, pl [pi], carrier, neg, tie, app))
+											{	vl_root_count (pf->name) ; peak_case (pf, subs [si], ch, wtype, N, place, negs, tie_frame, carrier, NULL, 0, app) ; }
+											}
 										for (int a = 0 ; a < 6 ; a++)
 										{	if (splits_set [a] <= 0 || splits_set [a] >= N) continue ;
 											if (! full && a != 4 && a != 5 && a != 2) continue ;
 											if (vl_case ("C18 peak fmt=%s/%s ch=%d wtype=%s N=%ld place=%ld carrier=%d neg=%d tie=%d splits=%ld", pf->name, sub_name (subs [si]), ch, type_names [wtype], N, pl [pi], carrier, neg, tie, splits_set [a]))
-											{	long sp [1] = { splits_set [a] } ; vl_root_count (pf->name) ; peak_case (pf, subs [si], ch, wtype, N, place, negs, tie_frame, carrier, sp, 1) ; }
+											{	long sp [1] = { splits_set [a] } ; vl_root_count (pf->name) ; peak_case (pf, subs [si], ch, wtype, N, place, negs, tie_frame, carrier, sp, 1, 0) ; }
 											if (! full) continue ;
 											for (int b = 0 ; b < 6 ; b++)
 											{	if (splits_set [b] <= splits_set [a] || splits_set [b] >= N) continue ;
 												if (vl_case ("C18 peak fmt=%s/%s ch=%d wtype=%s N=%ld place=%ld carrier=%d neg=%d tie=%d splits=%ld,%ld", pf->name, sub_name (subs [si]), ch, type_names [wtype], N, pl [pi], carrier, neg, tie, splits_set [a], splits_set [b]))
-												{	long sp [2] = { splits_set [a], splits_set [b] } ; vl_root_count (pf->name) ; peak_case (pf, subs [si], ch, wtype, N, place, negs, tie_frame, carrier, sp, 2) ; }
+												{	long sp [2] = { splits_set [a], splits_set [b] } ; vl_root_count (pf->name) ; peak_case (pf, subs [si], ch, wtype, N, place, negs, tie_frame, carrier, sp, 2, 0) ; }
 												}
 											}
 										}
